@@ -314,6 +314,27 @@ func clusterCmd(out *cq.Out, seed uint64, tier string) {
 				}
 			}
 		}
+		if sc%3 == 1 {
+			// the boundary: a follower restarts when the log holds exactly one event (version 0 is also the zero value)
+			before := len(c.acked)
+			evs := mk(1)
+			if snaps, err := c.add(evs); err == nil {
+				c.checkDense(out, snaps, evs, before, desc)
+				c.quiesce()
+				l := c.leader()
+				f := (l + 1) % 3
+				c.stop(f)
+				if err := c.start(f, false); err == nil {
+					hist = append(hist, fmt.Sprintf("add 1, restart follower %d", f))
+					if c.quiesce() {
+						c.checkReplicas(out, rng, "C06", desc)
+						hist = append(hist, "check")
+					} else {
+						out.Violate("C06:no-quiescence", "after a follower restart on a one-event log the replicas did not converge within 20 s: "+c.versions(), desc)
+					}
+				}
+			}
+		}
 		for st := 0; st < steps && !c.indet; st++ {
 			out.Note(desc)
 			switch r := rng.Intn(10); {
